@@ -68,7 +68,7 @@ def tie_rule(chk, db):
 FIXTURE = os.path.join(D.VERIF, "fixtures", "iter_pos.hpp")
 
 
-META_EXTRA = 'IT3 (returned output cursor is advanced after its last write); IT4 (downward scans visit the first element); IT5 (`if constexpr` alternatives consult the same range ends); TIE-ELEM (min/max/minmax_element replace their holder in exactly the specified orderings); MERGE3 (one step of the merge-like algorithms per ordering of the heads); PARAM.'
+META_EXTRA = 'IT3 (returned output cursor is advanced after its last write); IT4 (downward scans visit the first element); IT5 (`if constexpr` alternatives consult the same range ends); TIE-ELEM (min/max/minmax_element replace their holder in exactly the specified orderings); MERGE3 (one step of the merge-like algorithms per ordering of the heads); BISECT (one symbolic step of every bisection loop leaves [first+step+1, first+count) or [first, first+step)); IT4i (index-form downward scans reach index 0); OUTSTEP (an output cursor is stepped only after a write); RESUME (pattern searches move their candidate by one); RUN (typestate none/current/stale of a remembered run start against resets of the run counter, fixed point over the loop); SHIFTRET (positions shift_left / shift_right return in the do-nothing cases, all (n, length) up to 4); PARAM.'
 META = (META[0] + " " + META_EXTRA, META[1])
 
 
@@ -78,6 +78,29 @@ def run(chk, tier):
     _PR.check(chk, db, ['_algorithm/', '_numeric/'], floor=150)
     from ..rules import iters as _ITX
     _ITX.reverse_index_area(chk, db, ['_algorithm/', '_numeric/'])      # IT4i: downward index scans reach index 0
+    _ITX.resume_area(chk, db, ['_algorithm/'])      # RESUME: pattern searches try every candidate position
+    nsr = 0
+    for nm in ("etl::shift_left", "etl::shift_right"):
+        for f0 in db.by_q.get(nm, []):
+            for node, ok, msg in _ITX.check_shift_returns(f0):
+                nsr += 1
+                label = "%s :: early `return %s` at line %s" % (astx.sig(f0), astx.show(node, 30), node.get("line") or f0["line"])
+                chk.instance("SHIFTRET")
+                chk.obligation("SHIFTRET", label, ok, evaluations=25)
+                if ok is False:
+                    chk.violation("SHIFTRET", label, "degenerate-return", "%s: %s" % (astx.loc(f0, node), msg), {"where": astx.loc(f0)})
+                elif ok is None:
+                    chk.unknown_instance("SHIFTRET", label, msg)
+    if not db.by_q.get("etl::shift_left") or not db.by_q.get("etl::shift_right"):
+        chk.analysis_broken("SHIFTRET: shift_left / shift_right no longer exist")
+    for f0 in [g for g in db.funcs if g["file"].startswith("_algorithm/") and g.get("body") is not None]:
+        for s0, cnt, hold, ok, msg in _ITX.check_run_state(f0):
+            label = "%s :: run counter `%s` / start `%s` (loop at line %s)" % (astx.sig(f0), cnt, hold, s0.get("line"))
+            chk.instance("RUN")
+            chk.obligation("RUN", label, ok)
+            if not ok:
+                chk.violation("RUN", label, "stale-run-start", "%s: %s" % (astx.loc(f0, s0), msg), {"where": astx.loc(f0)})
+    _ITX.bisect_area(chk, db, ['_algorithm/'])      # BISECT: one bisection step keeps exactly the half that can hold the answer
     funcs = [f for f in db.funcs if (f["file"].startswith("_algorithm/") or f["file"].startswith("_numeric/")) and f.get("kind") == "function"]
     n_scan = n_cursors = 0
     not_modelled = []
@@ -136,6 +159,15 @@ def run(chk, tier):
             chk.violation("IT3", construct, "returns-written-position", "%s: `%s` is returned while it still designates the last element "
                           "written (it is not advanced after its last write on this path); the algorithm returns one past the last element"
                           % (astx.loc(f, node if isinstance(node, dict) else None), cur), {"where": astx.loc(f)})
+        # OUTSTEP: the output cursor is stepped only after a write (two steps without a write skip an output slot)
+        chk.instance("OUTSTEP")
+        gaps = f.get("_it3_gaps") or []
+        chk.obligation("OUTSTEP", construct, not gaps)
+        if gaps:
+            cur, node, path = gaps[0]
+            chk.violation("OUTSTEP", construct, "output-slot-skipped", "%s: `%s` is advanced although nothing was written through it since its "
+                          "previous advance (a path on which the element is not copied still steps the output): the output range gets "
+                          "holes and the returned end is too far" % (astx.loc(f, node), cur), {"where": astx.loc(f)})
     if n_out < 15:
         chk.analysis_broken("IT3: only %d algorithms return their output cursor (floor 15)" % n_out)
     n_rev = 0
